@@ -54,6 +54,16 @@ def time_limit(seconds):
         signal.signal(signal.SIGALRM, old)
 
 
+def exc_text(e, n=300):
+    """Text of an exception of the code under test; its __str__ may itself raise (it prints terms)."""
+    try:
+        return str(getattr(e, 'str', e))[:n]
+    except Timeout:
+        raise
+    except Exception as e2:
+        return '<%s while printing the message>' % type(e2).__name__
+
+
 def canon(obj):
     return json.dumps(obj, sort_keys=True, separators=(',', ':'), default=str)
 
